@@ -242,6 +242,9 @@ func vrtIntrinsic(ex *Exec, fn *ssa.Function, args []Value, site string) Value {
 	case "Owned":
 		ex.footprintOwn(unwrapAny(args[0]))
 		return Tuple{}
+	case "ZoneDST": // ZoneDST(offsetSeconds int, dst bool) *time.Location: a zone whose single rule has the given total offset and DST flag
+		ex.opaqueID++
+		return Opaque{Kind: "loc", ID: ex.opaqueID, Data: map[string]Value{"off": args[0].(*T), "dst": args[1].(*T)}}
 	case "Panics": // Panics(f func()) bool: natively recover(); symbolically forks on every panic site
 		f := args[0].(Func)
 		save := ex.H.ExpectPanic
